@@ -414,7 +414,18 @@ def run_case(script):
   return _run_one(script)
 
 
+def _freeze():
+  """The driver calls gc.collect() after a holder drops its sink; do not let that walk the
+  (possibly large) heap inherited from the parent."""
+  try:
+    import gc
+    gc.freeze()
+  except Exception:
+    pass
+
+
 def _run_one(script):
+  _freeze()
   loop = common.boot()
   w = _World(loop)
   loop.run_until_idle()
@@ -495,6 +506,7 @@ def _get(d, k):
 
 def _replay_one(script):
   beh = script['behaviour']
+  _freeze()
   loop = common.boot()
   w = _World(loop)
   loop.run_until_idle()
@@ -568,16 +580,28 @@ def _replay_one(script):
 _STNAME = {1: 'Idle', 2: 'Open', 3: 'Busy', 4: 'Closed'}
 
 
+def _slim(module, st):
+  """Keep only what the projection compare reads (states carry the whole ghost machine)."""
+  try:
+    if module == 'SingletonPool':
+      return {'refc': st['refc'], 'next': st['next'], 'runq': [0] * len(st['runq']),
+              'conn': [{'st': c['st']} for c in st['conn']]}
+    return {'sinks': st['sinks'], 'held': st['held']}
+  except Exception:
+    return {}
+
+
 def replay_behaviours(prop, tier, seed):
   _preload()
   quick = tier == 'quick'
   traces, drift, steps, nbeh = [], [], 0, 0
-  for module, cfg, num, depth in (('SingletonPool', 'SingletonPool_sim.cfg', 600 if quick else 8000, 40),
+  for module, cfg, num, depth in (('SingletonPool', 'SingletonPool_sim.cfg', 600 if quick else 4000, 40),
                                   ('RefCounted', 'RefCounted_sim.cfg', 200 if quick else 2000, 14)):
     r, behs = tlc.simulate_behaviours(module, cfg, num=num, depth=depth, seed=int(seed) + 1, timeout=900)
     if not behs:
       raise RuntimeError('no behaviours from TLC simulate (%s):\n%s' % (cfg, r.stdout[-2000:]))
-    scripts = [{'module': module, 'behaviour': [[a, s] for a, s in b]} for b in behs]
+    scripts = [{'module': module, 'behaviour': [[a, _slim(module, s)] for a, s in b]} for b in behs]
+    del behs   # keep the parent small: it is forked once per behaviour
     res = common.run_forked(_replay_one, scripts)
     errs = [x['err'] for x in res if 'err' in x]
     if errs:
